@@ -30,7 +30,8 @@ CONSTANTS Alg,        \* algorithm tags, e.g. {"t0.a","t1.b","t2.c"}
 
 ALL == "__all__"
 Tg  == Targets \cup {ALL}
-Outcomes == {"success", "failure", "invalid"}
+Outcomes == {"success", "empty", "failure", "invalid"}   \* empty: success with an empty value list (the algorithm stored nothing)
+IsOk(out) == out \in {"success", "empty"}
 
 VARIABLES prog,      \* the program (constant along a behaviour)
           todo,      \* [Alg -> SUBSET Tg]  node attribute 'todo'
@@ -161,7 +162,7 @@ Reply(a, t, out, new, old) ==
                    q1 == IF Idle(todo, dg, hd, a) THEN que \ {a} ELSE que
                IN  /\ nrec' = nrec + 1
                    /\ ndrop' = ndrop
-                   /\ IF out = "success"
+                   /\ IF IsOk(out)
                       THEN LET S  == Consumers(a, new)
                                td == OrganizeTodo(todo, S, {t})
                            IN  /\ todo' = td /\ doing' = dg /\ hand' = hd
